@@ -6,8 +6,9 @@
 (* Checked: the world invariant (conjunction of the subsystem invariants), refinement of the contract           *)
 (* (Clause(...) = "" for every step, i.e. exactly what trace validation demands of the real library), freshness *)
 (* of every cache-backed answer, independence of the original after a copy, and the laws of the contract        *)
-(* operators on every reachable world.  Deviation constants name conceivable cross-subsystem defects (1-4) and  *)
-(* the shipped behaviour reported as findings (5-7); with all of them FALSE the model is the repaired design.   *)
+(* operators on every reachable world.  Deviation constants name conceivable cross-subsystem defects (1-5, 7;  *)
+(* 5 and 7 were shipped and are fixed: abb8e3d, f1f621b) and one shipped behaviour reported as a finding (6);   *)
+(* with all of them FALSE the model is the repaired design.  GEN / SIM configurations generate with all FALSE.  *)
 EXTENDS CommonRoad, Json
 
 CONSTANTS MaxSteps,                   \* bound on the length of a history
@@ -17,9 +18,9 @@ CONSTANTS MaxSteps,                   \* bound on the length of a history
           DEV_NetworkTRKeepsIndex,    \* translate_rotate on the network keeps the spatial index of the old polygons
           DEV_ReplaceLeaksIds,        \* replace_lanelet_network keeps the ids of the old network reserved
           DEV_CopySharesOccCache,     \* deepcopy / pickle: the copy's prediction shares the cached occupancy set with the original
-          DEV_ReassignKeepsStale,     \* SHIPPED: assign_obstacles_to_lanelets only adds registry entries
+          DEV_ReassignKeepsStale,     \* (fixed, abb8e3d) assign_obstacles_to_lanelets only adds registry entries
           DEV_MergeStopsAtDuplicate,  \* SHIPPED: add_lanelets_from_network stops adding at the first id that is already present
-          DEV_RemoveNeedsLanelets     \* SHIPPED: remove_obstacle raises when a recorded relation names a lanelet that left / was replaced
+          DEV_RemoveNeedsLanelets     \* (fixed, f1f621b) remove_obstacle raises when a recorded relation names a lanelet that left / was replaced
 
 VARIABLES st, occC, idx, cnt, origC, shared, steps, act, hist, ans, exp
 vars == <<st, occC, idx, cnt, origC, shared, steps, act, hist, ans, exp>>
